@@ -93,6 +93,9 @@ def scenario(r, style):
             ok = m.delE(sd, e, via)
             if not ok or r.random() < 0.3:
                 probe(r, m, "W" if sd == "PUB" else "R", e)
+            sibs = [i for i, x in enumerate(m.eps(sd)) if x["g"] == m.eps(sd)[e]["g"] and i != e]
+            if sibs and r.random() < 0.6:
+                m.emit("gq %s %d" % ("W" if sd == "PUB" else "R", r.choice(sibs)))
         elif k < 0.72 and (m.pubs or m.subs):
             sd = r.choice([s for s in ("PUB", "SUB") if m.groups(s)])
             g = r.randrange(len(m.groups(sd)))
@@ -167,6 +170,18 @@ def corpus():
         # wrong parents
         parse_line("P 0 ; P 0 ; PUB 0 ; PUB 1 ; PUB 0 ; T 0 1 ; T 1 1 ; W 0 0 ; delW 0 1 ; delW 0 2 ; delPUB 0 1 ; "
                    "delT 0 1 ; gq W 0 ; gq PUB 0 ; gq T 0 ; delW 0 ; delPUB 0 ; delT 0"),
+        # a topic used only by a reader / only by a writer; several writers in one publisher, deleted out of order
+        parse_line("P 0 ; T 0 1 ; T 0 2 ; PUB 0 ; SUB 0 ; R 0 0 ; W 0 1 ; delT 0 ; delT 1 ; gq T 0 ; gq T 1 ; delR 0 ; delT 0 ; "
+                   "delT 1 ; delW 0 ; delT 1 ; gq T 0 ; gq T 1"),
+        parse_line("P 0 ; T 0 1 ; PUB 0 ; W 0 0 ; W 0 0 ; W 0 0 ; h W 0 ; h W 1 ; h W 2 ; delW 1 ; gq W 0 ; gq W 1 ; gq W 2 ; delW 0 ; "
+                   "gq W 0 ; gq W 2 ; delPUB 0 ; delW 2 ; delW 2 ; delPUB 0 ; delPUB 0"),
+        parse_line("P 0 ; T 0 1 ; SUB 0 ; R 0 0 ; R 0 0 ; R 0 0 ; delR 0 ; gq R 0 ; gq R 1 ; gq R 2 ; delR 2 ; gq R 1 ; gq R 2 ; "
+                   "delSUB 0 ; delR 1 ; delSUB 0"),
+        # each kind of child alone keeps the participant alive
+        parse_line("P 0 ; T 0 1 ; delP 0 ; delT 0 ; PUB 0 ; delP 0 ; delPUB 0 ; SUB 0 ; delP 0 ; delSUB 0 ; delP 0 ; delP 0"),
+        # two participants: deleting one leaves the other untouched
+        parse_line("P 0 ; P 0 ; T 0 1 ; T 1 1 ; PUB 0 ; PUB 1 ; W 0 0 ; W 1 1 ; delall 0 ; delP 0 ; gq W 1 ; gq PUB 1 ; gq T 1 ; gq W 0 ; "
+                   "gq PUB 0 ; gq T 0 ; delP 1 ; delW 1 ; delPUB 1 ; delT 1 ; delP 1"),
         # known: content filtered topic keeps the participant alive for ever
         parse_line("P 0 ; T 0 1 ; CFT 0 1 0 ; delall 0 ; delP 0 ; delCFT 0 ; delP 0"),
         parse_line("P 0 ; T 0 1 ; CFT 0 1 0 ; SUB 0 ; RC 0 0 ; delT 0 ; gq R 0"),
